@@ -654,9 +654,55 @@ class Evaluator:
             raise AnalysisBroken(f"statement kind {type(st).__name__} at line {st.lineno} is outside the evaluator's idiom list")
         return m(st, env, ctx)
 
+    def _helper_raises(self, v):
+        """For a value that is directly a call of a helper introduced after the rules were validated: the control tree
+        'raise on the helper's raising paths, else fall through' (a validation helper called as a statement stops its caller)."""
+        A = getattr(self.P, "_analyzer", None)
+        c = strip(v)
+        if A is None or head(c) != "call" or self.tag == "spec":
+            return None
+        base = A._baseline_functions()
+        if not base:
+            return None
+        f = strip(c[1])
+        callee, selft = None, None
+        if head(f) == "glob" and f[1] in self.P.functions and f[1] not in base:
+            callee = f[1]
+        elif head(f) == "attr" and strip(f[1]) == ("param", "self") and self.cls:
+            m = self.P.find_method(self.cls, f[2])
+            if m and m not in base:
+                callee, selft = m, ("param", "self")
+        if callee is None or callee in A._summarising or callee in getattr(A, "_splicing", ()):
+            return None
+        try:
+            cs = A.summary(callee)
+        except AnalysisBroken:
+            return None
+        if cs.is_generator or not any(x[0] == "raise" for x in walk(cs.ret)):
+            return None
+        bind = A.bind_call(cs, c, self_term=selft)
+        if bind is None:
+            return None
+        from .rules import lift_ite
+        from .terms import strip_all
+        try:
+            lv = leaves(lift_ite(strip_all(cs.ret)))
+        except AnalysisBroken:
+            return None
+        tree = FALL
+        for guards, leaf in reversed(lv):
+            if head(strip(leaf)) == "raise":
+                conj = [(g if pol else ("un", "not", g)) for g, pol in guards]
+                cond = TRUE if not conj else conj[0] if len(conj) == 1 else ("and", tuple(conj))
+                tree = ("ite", subst(cond, bind), ("raise", subst(strip(leaf)[1], bind)), tree)
+        return tree if tree != FALL else None
+
     def s_Expr(self, st, env, ctx):
         v = self.ev(st.value, env, ctx)
         self.emit("expr", ctx, st, value=v)
+        rt = self._helper_raises(v)
+        if rt is not None:
+            return env, rt
         c = st.value
         if isinstance(c, ast.Call) and isinstance(c.func, ast.Attribute) and isinstance(c.func.value, ast.Name) and c.func.attr in MUTATORS:
             name = c.func.value.id
@@ -704,7 +750,8 @@ class Evaluator:
         v = self.ev(st.value, env, ctx)
         for t in st.targets:
             self.bind(t, v, env, ctx)
-        return env, FALL
+        rt = self._helper_raises(v)
+        return env, (rt if rt is not None else FALL)
 
     def s_AnnAssign(self, st, env, ctx):
         if st.value is not None:
@@ -736,6 +783,9 @@ class Evaluator:
     def s_Return(self, st, env, ctx):
         v = NONE if st.value is None else self.ev(st.value, env, ctx)
         self.emit("return", ctx, st, value=v)
+        rt = self._helper_raises(v)
+        if rt is not None:
+            return env, replace_fall(rt, ("ret", v))
         return env, ("ret", v)
 
     def s_Raise(self, st, env, ctx):
@@ -975,12 +1025,18 @@ class Analyzer:
     def __init__(self, program: Program):
         self.P = program
         self._cache: dict = {}
+        self._summarising: set = set()
+        program._analyzer = self
 
     def summary(self, qualname: str) -> Summary:
         if qualname in self._cache:
             return self._cache[qualname]
         f = self.P.func(qualname)
-        s = summarize(self.P, f)
+        self._summarising.add(qualname)
+        try:
+            s = summarize(self.P, f)
+        finally:
+            self._summarising.discard(qualname)
         self._cache[qualname] = s
         if not hasattr(self, "_splicing"):
             self._splicing = set()
